@@ -35,7 +35,7 @@ static const char *opn[] = { "ld", "st", "xchg", "cas", "addret", "add", "or", "
 #define SBMAX 32
 #define MAXNAMES 4096
 #define MAXQ 512
-enum { ST_NONE, ST_RUN, ST_BLOCK_MUTEX, ST_BLOCK_FUTEX, ST_BLOCK_COND, ST_BLOCK_JOIN, ST_DONE };
+enum { ST_NONE, ST_RUN, ST_BLOCK_MUTEX, ST_BLOCK_FUTEX, ST_BLOCK_COND, ST_BLOCK_JOIN, ST_BLOCK_PRED, ST_DONE };
 
 struct sbe { volatile void *a; unsigned sz; unsigned long v; };
 struct mthread {
@@ -50,6 +50,7 @@ struct mthread {
 	volatile void *pst_addr; unsigned pst_sz;	/* pending plain store to a named address (value logged lazily) */
 	void *keyval[8];
 	char *stk_lo, *stk_hi; int uses_ops;
+	int (*pred)(void *); void *pred_arg;
 };
 static struct mthread T[MAXT];
 static int nthreads;
@@ -201,6 +202,7 @@ static int enabled(int i)
 	case ST_BLOCK_MUTEX: return T[i].nsb == 0 && mx_get(T[i].wait_m)->owner == -1;
 	case ST_BLOCK_FUTEX: case ST_BLOCK_COND: return T[i].woken;
 	case ST_BLOCK_JOIN: return T[T[i].join_t].state == ST_DONE;
+	case ST_BLOCK_PRED: return T[i].nsb == 0 && T[i].pred(T[i].pred_arg);
 	default: return 0;
 	}
 }
@@ -637,6 +639,16 @@ int vrt_pthread_join(pthread_t tid, void **ret)
 	if (trace) { fprintf(trace, "{\"t\":\"%s\",\"op\":\"join\",\"var\":\"%s\"}\n", T[self].name, T[id].name); trace_check(); }
 	return 0;
 }
+
+/* block the calling model thread until pred(arg) holds (evaluated by the scheduler; must be side-effect free) */
+void vrt_wait_until(int (*pred)(void *), void *arg)
+{
+	if (self < 0) { if (!pred(arg)) { fprintf(stderr, "VRT-FAIL main thread would block\n"); _exit(3); } return; }
+	lazy_plain();
+	T[self].pred = pred; T[self].pred_arg = arg; T[self].state = ST_BLOCK_PRED; sched_point(UV_CWAIT, 1); T[self].state = ST_RUN;
+}
+void vrt_daemonize(void) { if (self >= 0) T[self].daemon = 1; }
+void vrt_spawn_daemon(const char *name, void *(*fn)(void *), void *arg) { spawn_common(name, fn, arg, 1); }
 
 void vrt_op_begin(const char *name, enum vrt_prog cls) { if (self < 0) return; T[self].uses_ops = 1; T[self].opname = name; T[self].opcls = cls; T[self].opsteps = 0; }
 long vrt_op_end(void)
